@@ -31,6 +31,9 @@ R3 (K2) StreamSink.insert_stream: commit_write_group is unreachable while missin
    get_missing_parent_inventories() with every versioned file's get_missing_compression_parent_keys() and returns it.
 R6 fetch.py:_parent_keys_for_root_version leaves a parent out of the synthesised root text's parents only for
    NULL_REVISION or after a lookup failed (no `continue` keyed on the map's None marker). Added from a third-round seed.
+R7 (third round) StreamSource._stream_invs_as_deltas: the basis id handed to delta_to_lines is assigned only next to the delta it
+   belongs to — the loop's own parent id with make_inventory_delta(inv, <inventory looked up under that id>), or NULL_REVISION with the
+   null inventory.
 Does not decide: completeness of search_missing_revision_ids, CHK filtering, testament equality.
 """
 ENDS = {"commit_write_group", "suspend_write_group", "abort_write_group"}
@@ -217,9 +220,90 @@ def run(ctx):
             if not any("NULL_REVISION" in norm(i_.test) for i_ in owners):
                 bad6.append(f"L{n.lineno}:{type(n).__name__.lower()} under {[norm(i_.test)[:40] for i_ in owners][-1:]}")
     ctx.check("R6-root-parent-dropped-only-when-unloadable", wpk, not bad6, "a parent contributes no root-text parent only via NULL_REVISION or a failed lookup", construct="; ".join(bad6), message=f"_parent_keys_for_root_version skips a parent without looking it up ({bad6}): for a parent outside the fetch set that is seen a second time (two fetched siblings of a revision the target already has) the synthesised root text loses its parent — the per-file graph differs from a one-shot fetch and check() reports inconsistent parents")
+    # ---- R7: an inventory delta record names the basis it was computed against ----------------------------------------
+    fd7 = repo.func(VF, "StreamSource._stream_invs_as_deltas")
+    w7 = f"{VF}:StreamSource._stream_invs_as_deltas"
+    ser = [c for c in calls_in(fd7) if call_attr(c) == "delta_to_lines" and len(c.args) >= 3 and isinstance(c.args[0], ast.Name) and isinstance(c.args[2], ast.Name)]
+    ctx.require(len(ser) == 1, f"{w7}: serializer.delta_to_lines(basis, new, delta) not found")
+    bvar, dvar = ser[0].args[0].id, ser[0].args[2].id
+    parents7 = {}
+    for n_ in ast.walk(fd7):
+        for ch in ast.iter_child_nodes(n_):
+            parents7[id(ch)] = n_
 
+    def _block_of(st):
+        par = parents7.get(id(st))
+        for fld in ("body", "orelse", "finalbody"):
+            blk = getattr(par, fld, None)
+            if isinstance(blk, list) and any(x is st for x in blk):
+                return blk
+        return []
+
+    def _enclosing_for(st):
+        cur = st
+        while id(cur) in parents7:
+            cur = parents7[id(cur)]
+            if isinstance(cur, ast.For):
+                return cur
+        return None
+
+    def _made_from(expr, scope):
+        """the inventory argument B of make_inventory_delta(inv, B) behind `expr` (directly, or through a local assigned in scope)"""
+        if isinstance(expr, ast.Call) and (call_attr(expr) or norm(expr.func)).split(".")[-1] == "make_inventory_delta" and len(expr.args) == 2:
+            return expr.args[1]
+        if isinstance(expr, ast.Name):
+            srcs = [a.value for a in ast.walk(scope) if isinstance(a, ast.Assign) and any(norm(t) == expr.id for t in a.targets)]
+            outs = [_made_from(v, scope) for v in srcs if not (isinstance(v, ast.Name) and v.id == expr.id)]
+            if outs and all(o is not None for o in outs) and len({norm(o) for o in outs}) == 1:
+                return outs[0]
+        return None
+
+    bad7, n7 = [], 0
+    for a in walk_own(fd7):
+        if not (isinstance(a, ast.Assign) and any(norm(t) == bvar for t in a.targets)):
+            continue
+        n7 += 1
+        blk = _block_of(a)
+        dl = [x for x in blk if isinstance(x, ast.Assign) and any(norm(t) == dvar for t in x.targets)]
+        if len(dl) != 1:
+            bad7.append(f"L{a.lineno}: `{norm(a)}` is not paired with one assignment of `{dvar}` in the same block")
+            continue
+        loop = _enclosing_for(a)
+        inner_loop = loop if loop is not None and isinstance(a.value, ast.Name) and isinstance(loop.target, ast.Name) and loop.target.id == a.value.id else None
+        scope = inner_loop if inner_loop is not None else fd7
+        binv = _made_from(dl[0].value, scope)
+        if binv is None:
+            bad7.append(f"L{a.lineno}: `{norm(dl[0])}` next to `{norm(a)}` is not a make_inventory_delta(inv, <basis inventory>) result")
+            continue
+        if isinstance(a.value, ast.Name):
+            if inner_loop is None:
+                bad7.append(f"L{a.lineno}: `{norm(a)}` — the basis id is not the loop variable of the loop that computed the delta")
+                continue
+            x = a.value.id
+            passign = [s_ for s_ in ast.walk(inner_loop) if isinstance(s_, ast.Assign) and any(norm(t) == norm(binv) for t in s_.targets)]
+            def _tied(s_):
+                if any(isinstance(n_, ast.Name) and n_.id == x for n_ in ast.walk(s_.value)):
+                    return True
+                cur = s_
+                while id(cur) in parents7 and cur is not inner_loop:
+                    par = parents7[id(cur)]
+                    if isinstance(par, ast.If) and any(isinstance(n_, ast.Name) and n_.id == x for n_ in ast.walk(par.test)):
+                        return True
+                    cur = par
+                return False
+            if not passign or not all(_tied(s_) for s_ in passign):
+                bad7.append(f"L{a.lineno}: the inventory `{norm(binv)}` the delta is made against is not looked up under `{x}`")
+        elif "NULL_REVISION" in norm(a.value):
+            nsrc = [s_.value for s_ in walk_own(fd7) if isinstance(s_, ast.Assign) and any(norm(t) == norm(binv) for t in s_.targets)]
+            if not nsrc or not all("NULL_REVISION" in norm(v) for v in nsrc):
+                bad7.append(f"L{a.lineno}: basis NULL_REVISION is paired with a delta against `{norm(binv)}`, which is not the null inventory")
+        else:
+            bad7.append(f"L{a.lineno}: `{norm(a)}` — the basis id is computed separately from the delta (not the loop's own parent id)")
+    ctx.require(n7 >= 2, f"{w7}: assignments of the basis id not found")
+    ctx.check("R7-delta-names-its-basis", w7, not bad7, f"every `{bvar} = …` sits next to `{dvar} = make_inventory_delta(inv, <inventory of that same revision>)`", construct="; ".join(bad7)[:300], message=f"_stream_invs_as_deltas can emit an inventory-delta record whose named basis is not the inventory the delta was computed against ({'; '.join(bad7)[:300]}): the receiver applies the delta to another parent's inventory and silently stores a different tree for the revision — testaments of the same revision differ between source and target")
 
 MUTANTS = [
+    Mutant("delta basis named from the unfiltered parent list", VF, "                        delta = candidate_delta\n                        basis_id = parent_id\n", "                        delta = candidate_delta\n                        basis_id = parent_ids[0]\n", expect="R7-delta-names-its-basis"),
     Mutant("None in the root-id map taken for a ghost", "breezy/bzr/fetch.py", "            parent_ids.append(parent_id)\n        else:\n            # root_id may be in the parent anyway.\n", "            parent_ids.append(parent_id)\n        elif parent_root_id is None:\n            continue\n        else:\n            # root_id may be in the parent anyway.\n", expect="R6-root-parent-dropped-only-when-unloadable"),
     Mutant("fallback lists compared with zip only", "breezy/repository.py", "        if len(my_fb) != len(other_fb):\n            return False\n", "", expect="R5-same-fallbacks-compares-lengths"),
     Mutant("source yields a kind the sink does not know", VF, "                raise AssertionError(f\"kaboom! {substream_type}\")", "                raise AssertionError(f\"kaboom! {substream_type}\")\n        if False:\n            yield (\"texts2\", None)", neutral=True, note="not in a StreamSource"),
